@@ -109,8 +109,82 @@ pub fn traces(ops_path: &str, impl_path: &str) {
         record("remove_storage_all", &mut |c| { c.remove_storage_all("/m").unwrap(); });
         record("flush", &mut |c| { c.flush().unwrap(); });
     }
+    // the handle operations once more with an I/O error inside them: an error path that takes the lock again
+    // (to re-read something, to roll back) while the call still holds its guard is the same nesting
+    faulty_traces(&mut ops, &mut imp);
     std::fs::write(ops_path, ops).unwrap();
     std::fs::write(impl_path, imp).unwrap();
+}
+
+/// Handle operations (and two structural calls) with one underlying write/seek/flush failing at position k, for
+/// every k of the fault-free run (at most 60 per operation), each on a watched thread with the lock events recorded.
+fn faulty_traces(ops: &mut String, imp: &mut String) {
+    use crate::faults::{Ctl, FaultyFile};
+    type Op = (&'static str, fn(&mut CompoundFile<FaultyFile>, &mut cfb::Stream<FaultyFile>));
+    let list: Vec<Op> = vec![
+        ("set_len_shrink", |_, s| { let _ = s.set_len(5000); }),
+        ("set_len_grow", |_, s| { let _ = s.set_len(20000); }),
+        ("set_len_to_mini", |_, s| { let _ = s.set_len(100); }),
+        ("write_flush", |_, s| { let _ = s.write_all(&pattern(3000, 5)); let _ = s.flush(); }),
+        ("seek_write_read", |_, s| { let _ = s.seek(SeekFrom::Start(100)); let _ = s.write_all(&pattern(5000, 6)); let mut b = [0u8; 64]; let _ = s.read(&mut b); }),
+        ("create_and_remove", |c, _| { let _ = c.create_stream("/n1"); let _ = c.remove_stream("/other"); let _ = c.create_storage("/st"); }),
+    ];
+    for version in [Version::V3, Version::V4] {
+        for (name, f) in list.iter() {
+            let f = *f;
+            // everything that touches the handle happens on the watched thread (a handle is not `Send`)
+            let run_one = move |k: Option<u64>| -> u64 {
+                let ctl = Ctl::new(false, true);
+                ctl.count_writes.store(false, Ordering::SeqCst);
+                let file = FaultyFile { inner: SharedFile::new(Vec::new()), ctl: ctl.clone(), seek_is_read: false };
+                let mut comp = CompoundFile::create_with_version(version, file).unwrap();
+                comp.create_stream("/other").unwrap().write_all(&pattern(700, 1)).unwrap();
+                let mut st = comp.create_stream("/s").unwrap();
+                st.write_all(&pattern(9000, 2)).unwrap();
+                st.flush().unwrap();
+                if let Some(k) = k {
+                    ctl.fail_a.store(k, Ordering::SeqCst);
+                }
+                ctl.count_writes.store(true, Ordering::SeqCst);
+                verif_start_recording();
+                f(&mut comp, &mut st);
+                ctl.count_writes.store(false, Ordering::SeqCst);
+                ctl.calls.load(Ordering::SeqCst)
+            };
+            let watched = |k: Option<u64>, label: &str| -> u64 {
+                let (tx, rx) = mpsc::channel::<u64>();
+                std::thread::spawn(move || {
+                    let n = run_one(k);
+                    let _ = tx.send(n);
+                });
+                match rx.recv_timeout(std::time::Duration::from_secs(20)) {
+                    Ok(n) => n,
+                    Err(_) => {
+                        println!("ORACLE call {} (an underlying write/seek/flush fails at its call {:?}) does not return (self-deadlock: its error path acquires the lock while its own thread holds it)", label, k);
+                        println!("DEADLOCK {}", label);
+                        use std::io::Write as _;
+                        let _ = std::io::stdout().flush();
+                        std::process::exit(3);
+                    }
+                }
+            };
+            let n_calls = watched(None, name);
+            let _ = verif_take_events();
+            for k in 0..n_calls.min(60) {
+                let label = format!("faulty_{}_v{}_k{}", name, if version == Version::V3 { 3 } else { 4 }, k);
+                watched(Some(k), &label);
+                let ev = verif_take_events();
+                writeln!(ops, "call {} {}", label, if ev.is_empty() { "-".to_string() } else { render(&ev) }).unwrap();
+                match ev.iter().find(|e| e.depth_before != 0) {
+                    None => writeln!(imp, "flat").unwrap(),
+                    Some(e) => {
+                        writeln!(imp, "notflat").unwrap();
+                        println!("ORACLE call {} acquires the lock ({}) at {} while already holding {} guard(s)", label, if e.write { "write" } else { "read" }, e.site, e.depth_before);
+                    }
+                }
+            }
+        }
+    }
 }
 
 /// Thread A makes every `&self` call (lookups, listings, both iterators); the gate parks A whenever it is about to acquire while already
